@@ -237,6 +237,10 @@ class Registry:
             return run.alloc(HDict(d))
         if head == "Obj":
             return self.make_object(it, arg, name, fresh)
+        if head == "Lazy":
+            return X.SLazy(arg, name, nullable=True)
+        if head == "LazyNN":
+            return X.SLazy(arg, name, nullable=False)
         if head == "Opaque":
             srt = run.ctx.sort(arg)
             return SOpaque(arg, const(srt))
@@ -421,7 +425,11 @@ class Registry:
         sf = X.Frame(dict(fr.env), fr.fi, fr.cls, parent=fr.parent, module=fr.module)
         sf.spec = X.SpecEnv()
         sf.spec.old = getattr(it.run, "old_state", None)
-        args = [it.ev(a, sf) for a in node.args]
+        it.run.spec_depth += 1
+        try:
+            args = [it.ev(a, sf) for a in node.args]
+        finally:
+            it.run.spec_depth -= 1
         env = dict(zip(lem["params"], args))
         req = AND(*[zbool(self.eval_clause(it, r, fr, env=dict(env))) for r in lem["requires"]])
         ens = AND(*[zbool(self.eval_clause(it, r, fr, env=dict(env))) for r in lem["ensures"]])
@@ -460,11 +468,39 @@ class Registry:
         result = None
         if c["result"] is not None:
             result = self.make_symbolic(it, c["result"], "ret!%s" % fi.name)
+        # the callee's ghost updates happen with the call
+        if c.get("ghost_update"):
+            import ast as _ast
+            genv = dict(env)
+            gf = X.Frame(genv, fi, fi.cls, module=fi.module)
+            gf.spec = X.SpecEnv()
+            gf.spec.allow_write = True
+            gf.spec.old = old
+            gf.spec.result = result
+            genv["result"] = result
+            run.spec_depth += 1
+            try:
+                for gu in c["ghost_update"]:
+                    for st in _ast.parse(gu.strip()).body:
+                        it.exec_stmt(st, gf)
+            finally:
+                run.spec_depth -= 1
         for en in c["ensures"]:
             if isinstance(en, tuple) and en[0].endswith("!"):
                 continue        # property-derived clause: checked against the code, never assumed by callers
             en_text = en[1] if isinstance(en, tuple) else en
             run.assume(zbool(self.eval_clause(it, en_text, cf, result=result, old=old)))
+        # a public method re-establishes the class invariant of its receiver
+        selfv = env.get("self")
+        if c.get("check_invariant", True) and isinstance(selfv, Ref) and isinstance(run.obj(selfv), HObj):
+            k = self.classes.get(run.obj(selfv).cls)
+            if k is not None:
+                for inv in k["invariant"]:
+                    txt = inv[1] if isinstance(inv, tuple) else inv
+                    run.assume(zbool(self.eval_clause(it, txt, cf, old=old)))
+        if not run.feasible(z3.BoolVal(True)):
+            raise Unsupported("the contract of %s is contradictory at this call site (assumed postconditions are "
+                              "unsatisfiable)" % fi.qualname)
         return result
 
     def havoc_modifies(self, it, modifies, env, cname):
@@ -675,6 +711,12 @@ def _deep_eq(self, a, b, heap_a, heap_b):
         if h is not None:
             return h(self, ob, heap_a, heap_b)
         return a.oid == b.oid
+    if isinstance(a, X.SLazy) or isinstance(b, X.SLazy):
+        if a is b:
+            if a.forced and isinstance(a.value, Ref) and a.value.oid in heap_a and a.value.oid in heap_b:
+                return _deep_eq(self, a.value, a.value, heap_a, heap_b)
+            return True
+        return False
     if isinstance(a, (X.SFunc, X.SCls, X.SMod)) or isinstance(b, (X.SFunc, X.SCls, X.SMod)):
         return a is b or (type(a) == type(b) and getattr(a, "kind", None) == getattr(b, "kind", None))
     return run.eq(a, b)
@@ -741,6 +783,11 @@ def _spec_meta(self, e, fr):
     return v.meta[k]
 
 
+def _spec_pow2(self, e, fr):
+    return self.ctx.models.pow2(self, self.ev(e.args[0], fr))
+
+
+X.Interp.spec_pow2 = _spec_pow2
 X.Interp.spec_first = _spec_first
 X.Interp.spec_size = _spec_size
 X.Interp.spec_inf = _spec_inf
